@@ -1,7 +1,7 @@
 ---- MODULE MCA_rules ----
 EXTENDS AnalysisGen, Ops
 Alpha == { O("MARK"), O("STOP"), GLOBAL("os", "system"), GLOBAL("builtins", "eval"), GLOBAL("builtins", "getattr"),
-           GLOBAL("collections", "OrderedDict"), GLOBAL("verif_sink", "hit"), GLOBAL("dill", "loads"), GLOBAL("collections", "eval"), GLOBAL("io", "open"),
+           GLOBAL("collections", "OrderedDict"), GLOBAL("verif_sink", "hit"), GLOBAL("dill", "loads"), GLOBAL("collections", "eval"), GLOBAL("io", "open"), GLOBAL("glob", "os.system"),
            INST("builtins", "exec"), K1, O("EMPTY_TUPLE"), O("TUPLE1"), O("REDUCE"), O("OBJ"), O("NEWOBJ"), O("BUILD"),
            O("EMPTY_DICT"), O("POP"), O("BINPERSID") }
 ====
